@@ -78,6 +78,8 @@ impl Task for EpollJob {
             // frees what it finds here only after it has looked at every event of its current batch.
             // (`handle` must not be touched after the push)
             let graveyard = Arc::clone(&handle.graveyard);
+            #[cfg(khttp_verif)]
+            crate::verif::emit(crate::verif::Event::EpGrave(self.handle_ptr));
             graveyard.lock().unwrap().push(self.handle_ptr);
         }
     }
